@@ -1,6 +1,6 @@
 #!/bin/sh
 # run_all.sh [quick|thorough]: every claimed check, one after the other; prints a summary.
-cd /verif
+cd "$(dirname "$0")"
 tier=${1:-quick}
 rc=0
 for p in $(python3 -c "import json;print(' '.join(c['property_id'] for c in json.load(open('MANIFEST.json'))['checks']))"); do
